@@ -75,6 +75,14 @@ func (s *stub) handle(w http.ResponseWriter, r *http.Request) {
 	}
 	_ = json.Unmarshal(body, &req)
 	tag, _ := req.Content[plgTagField[req.Op]].(string)
+	if req.Op == "Login" || req.Op == "NewProxy" {
+		mm, _ := req.Content["metas"].(map[string]any)
+		flat := map[string]string{}
+		for k, v := range mm {
+			flat[k] = fmt.Sprint(v)
+		}
+		tag = metasTag(tag, flat)
+	}
 	s.mu.Lock()
 	out := s.out
 	s.seen = append(s.seen, stubReq{op: req.Op, tag: tag, raw: req.Content})
@@ -88,6 +96,10 @@ func (s *stub) handle(w http.ResponseWriter, r *http.Request) {
 			rw(req.Content)
 		} else {
 			req.Content[plgTagField[req.Op]] = fmt.Sprintf("v%d", s.idx)
+			if _, has := req.Content["metas"]; has || req.Op == "Login" || req.Op == "NewProxy" {
+				// a rewrite that also removes: the metas are replaced as a whole, the original entry must not come back
+				req.Content["metas"] = map[string]any{"by": fmt.Sprintf("v%d", s.idx)}
+			}
 		}
 		b, _ := json.Marshal(map[string]any{"reject": false, "unchange": false, "content": req.Content})
 		w.Write(b)
@@ -117,7 +129,28 @@ func (s *stub) take() []stubReq {
 	return o
 }
 
+// metasTag: the version tag if the metas are those of that version (the original ones for v0, the replaced ones otherwise),
+// "mixed" if entries of another version are (still) there
+func metasTag(tag string, metas map[string]string) string {
+	want := map[string]string{"orig": "1"}
+	if tag != "v0" {
+		want = map[string]string{"by": tag}
+	}
+	if len(metas) != len(want) {
+		return "mixed"
+	}
+	for k, v := range want {
+		if metas[k] != v {
+			return "mixed"
+		}
+	}
+	return tag
+}
+
 func tagVersion(t string) int {
+	if t == "mixed" {
+		return -2
+	}
 	if strings.HasPrefix(t, "v") {
 		n := 0
 		fmt.Sscanf(t[1:], "%d", &n)
@@ -148,18 +181,18 @@ func (r *pluginsRun) runCase(op string, chain []plgSlot) {
 	final := ""
 	switch op {
 	case "Login":
-		c := &plugin.LoginContent{Login: msg.Login{Hostname: "v0", User: "u"}}
+		c := &plugin.LoginContent{Login: msg.Login{Hostname: "v0", User: "u", Metas: map[string]string{"orig": "1"}}}
 		var out *plugin.LoginContent
 		out, err = m.Login(c)
 		if err == nil {
-			final = out.Hostname
+			final = metasTag(out.Hostname, out.Metas)
 		}
 	case "NewProxy":
-		c := &plugin.NewProxyContent{NewProxy: msg.NewProxy{ProxyName: "v0", ProxyType: "tcp"}}
+		c := &plugin.NewProxyContent{NewProxy: msg.NewProxy{ProxyName: "v0", ProxyType: "tcp", Metas: map[string]string{"orig": "1"}}}
 		var out *plugin.NewProxyContent
 		out, err = m.NewProxy(c)
 		if err == nil {
-			final = out.ProxyName
+			final = metasTag(out.ProxyName, out.Metas)
 		}
 	case "Ping":
 		c := &plugin.PingContent{Ping: msg.Ping{PrivilegeKey: "v0"}}
